@@ -19,6 +19,20 @@ for p in sorted(glob.glob(f"{root}/checks/*/check.json")):
 tab = "| id | engine | last committed evidence | seeded changes (independent red team) reported by this check |\n|---|---|---|---|\n" + "\n".join(rows)
 d = open(f"{root}/DESIGN.md").read()
 d = re.sub(r"(<!-- BEGIN-ASBUILT-TABLE -->).*?(<!-- END-ASBUILT-TABLE -->)", lambda m: m.group(1) + "\n" + tab + "\n" + m.group(2), d, flags=re.S)
+# red-team statistics from seeded/*/meta.json
+tot=first=later=missed=0; missed_list=[]
+for m in sorted(glob.glob(f"{root}/seeded/*/meta.json")):
+    md=json.load(open(m)); own=md.get("property"); cb=md.get("caught_by",{})
+    tot+=1
+    anyq=[k for k,v in cb.items() if v.get("quick")]
+    h=md.get("history","") or ""
+    if anyq:
+        if ("missed at first run" in h or "MISSED" in h or "first run: missed" in h or "needed" in h) and not any((k+": reported at first run") in h for k in anyq): later+=1
+        else: first+=1
+    else:
+        missed+=1; missed_list.append(os.path.basename(os.path.dirname(m)))
+st=f"{tot} seeded changes kept; {first} reported by a check at the first attempt, {later} reported after the check was strengthened, {missed} not reported by any quick tier" + (": " + ", ".join(missed_list) if missed_list else "") + "."
+d = re.sub(r"(<!-- BEGIN-RT-STATS -->).*?(<!-- END-RT-STATS -->)", lambda m: m.group(1) + "\n" + st + "\n" + m.group(2), d, flags=re.S)
 kf = json.load(open(f"{root}/known_findings.json"))
 fx = "\n".join("* " + x.replace("fixed: ", "", 1) for x in kf.get("fixed", []))
 d = re.sub(r"(<!-- BEGIN-FIXED-LIST -->).*?(<!-- END-FIXED-LIST -->)", lambda m: m.group(1) + "\n" + fx + "\n" + m.group(2), d, flags=re.S)
